@@ -45,6 +45,13 @@ MODELS = {
                       "[c]\ndot(x) = -k * x\nk = 2\ndot(y) = dot(x) * 0.5 - y\n"),
     "time-dependent": ("c.x = 1",
                        "[c]\ndot(x) = -x + sin(engine.time) + if(engine.time > 10, 1, 0)\n"),
+    "variable-named-like-component": ("membrane.V = -80\nina.m = 0.1",
+                                      "[membrane]\ndot(V) = -(ina.ina + ina.ina_late)\n\n[ina]\nuse membrane.V as V\n"
+                                      "dot(m) = (0.5 - m) / 2\nina = g * m^3 * (V - E)\n    g = 12\n    E = 50\n"
+                                      "ina_late = g * m * (V - E)\n    g = 0.1\n    E = 40\n"),
+    "function-positions": ("c.n = 1.5\nc.y = 0.5",
+                           "[c]\ndot(n) = k * ceil(n)^2 - n + floor(y)^2 - abs(n - 3)^3 / 4 + (ceil(y) + 1)^0.5\nk = 0.25\n"
+                           "dot(y) = -ceil(n) * y + 2^ceil(y) - sqrt(n)^3 + exp(-y)^2 - (-y)^2 + -(y^2)\n"),
     "constant-expressions": ("c.x = 1",
                              "[c]\ndot(x) = -r * x + s\nr = 1 / 4\ns = 2 * k\nk = 3\n"),
 }
